@@ -76,7 +76,7 @@ fn main() {
         }
     }
     // Panics are values in this harness; keep stderr quiet.
-    std::panic::set_hook(Box::new(|_| {}));
+    if std::env::var("VH_VERBOSE_PANIC").is_err() { std::panic::set_hook(Box::new(|_| {})); }
     let mut ctx = Ctx::new(&prop, &tier, seed, out);
     match prop.as_str() {
         "C01" => p01::run(&mut ctx),
